@@ -21,3 +21,5 @@ mod c13_basicauth;
 mod c02_request;
 #[cfg(kani)]
 mod c14_cors;
+#[cfg(kani)]
+mod c07_gates;
